@@ -106,6 +106,11 @@ def run(ctx, proof):
 
     def hidden(klass, n, exact_only=False):
         r = rng.random()
+        if klass == "sa" and r < 0.12:
+            # large values, small cooperation surplus: intervals are narrow RELATIVE to the values but not degenerate
+            off = 10 ** rng.randint(5, 7)
+            base = games.sa_closure_game(rng, n, "int", neg_singletons=False)
+            return [off * games.popcount(i) + base[i] for i in range(2 ** n)], True
         if klass == "sa":
             if r < 0.6 or exact_only:
                 return games.sa_closure_game(rng, n, rng.choice(["int", "dyadic"]), neg_singletons=False), True
@@ -141,7 +146,7 @@ def run(ctx, proof):
         for gap in gaps:
             sel = seqs3 if not ctx.quick else rng.sample(seqs3, 10)
             for tr in sel:
-                add(3, klass, comp, gap, rng.choice([None, None, 1, 2]), [], tr)
+                add(3, klass, comp, gap, rng.choice([None, None, 0, 1, 2]), [], tr)
     ctx.coverage["n3_sequences_per_config"] = len(seqs3)
     ctx.coverage["exhaustive"] = False
     # n = 4, 5 sampled, with resets and extra initial knowledge
@@ -153,7 +158,7 @@ def run(ctx, proof):
         extra = rng.sample(opt, rng.choice([0, 0, 1, 2]))
         nexpl = len(opt) - len(extra)
         tr = gen_trace(rng, nexpl, rng.randint(2, 8 if ctx.quick else 14))
-        add(n, klass, comp, gap, rng.choice([None, None, 3, 5]), extra, tr)
+        add(n, klass, comp, gap, rng.choice([None, None, 0, 3, 5]), extra, tr)
 
     outs = run_driver_parallel([j[0] for j in jobs])
     mism = []
